@@ -4,6 +4,7 @@ package main
 // forall, exists, implies, ghost and spec functions) into terms.
 
 import (
+	"sort"
 	"os"
 	"fmt"
 	"go/ast"
@@ -239,6 +240,14 @@ func (sc *specCtx) eval(e ast.Expr) Value {
 		// capture: the closure cannot depend on it, so the clause must hold for every value of it
 		if v, ok := sc.uncaptured(e.Name); ok {
 			return v
+		}
+		if debugTrace && sc.st != nil {
+			var live []string
+			for a := range sc.st.locals {
+				live = append(live, a.Comment)
+			}
+			sort.Strings(live)
+			sc.errf(e, "unknown identifier (live locals: %s)", strings.Join(live, " "))
 		}
 		sc.errf(e, "unknown identifier")
 	case *ast.UnaryExpr:
@@ -624,6 +633,14 @@ func (sc *specCtx) call(e *ast.CallExpr) Value {
 			}
 			return mBool(Forall([]*Term{bv}, body))
 		}
+		if autoTriggers {
+			// as the negation of a universal, so that the triggers apply where the clause is refuted
+			nb, defs := abstractGround(Not(body))
+			for _, d := range defs {
+				sc.x.assumeTrue(d)
+			}
+			return mBool(Not(ForallAuto(bv, nb)))
+		}
 		return mBool(Exists([]*Term{bv}, body))
 	case "len":
 		v := sc.eval(arg(0))
@@ -732,6 +749,23 @@ func (sc *specCtx) call(e *ast.CallExpr) Value {
 		}
 		x.usedFuncs["flatat_"] = true
 		return mInt(App("spec.flatat_", SInt, E, refs, offs, lens, v.C[1], k, sc.evalInt(arg(ai))))
+	case "strslen", "strslenk":
+		// total length of the strings of a []string value (of its first k)
+		v := sc.eval(arg(0))
+		sl, ok := v.T.Underlying().(*types.Slice)
+		if !ok || !isStringT(sl.Elem()) {
+			sc.errf(e, "strslen of %v", v.T)
+		}
+		lens := elemArr(sc.st, sl.Elem(), Flatten(sl.Elem())[2], v.C[0])
+		k := v.C[2]
+		if name == "strslenk" {
+			k = sc.evalInt(arg(1))
+		}
+		x.usedFuncs["flatlen_"] = true
+		fl := App("spec.flatlen_", SInt, lens, v.C[1], k)
+		// ground instance of lemma/flatlen_nonneg_step (lengths are not negative)
+		x.assumeTrue(Le(Num(0), fl))
+		return mInt(fl)
 	case "closed":
 		v := sc.eval(arg(0))
 		return mBool(Select(sc.st.region(chReg("closed", v.T), SArr(SBool)), v.C[0]))
